@@ -6,7 +6,10 @@ RULE = ("lock: scripts of open / close / destroy_database / put / get through na
         "TmpFileSystem (real flock), compared step by step with the extracted lock-table model; races "
         "of 2..6 threads opening the same path simultaneously (exactly one must win when the path is "
         "free, none when it is owned) and races of opens against destroy_database (at most one owner, "
-        "every winner usable). Non-trivial: a script with at least one attempt against an open "
+        "every winner usable); lockp: destroy_database runs on its own thread and is parked (gated file "
+        "system) right before it removes the LOCK file and right before it removes the directory, while "
+        "the script opens and closes handles; never two handles open at once, and every step compared "
+        "with the extracted refined model LockPhases.pstep. Non-trivial: a script with at least one attempt against an open "
         "database; distinct by sha1.")
 TRUSTED = ["kernel flock semantics (a lock is held by at most one open file description; closing releases it)"]
 ASSUMPTIONS = ["a disk-backed file system (TmpFileSystem); the in-memory file system has no locking"]
@@ -47,6 +50,83 @@ class LockSuite:
         return corr, prop
 
 
+class LockPhasesSuite:
+    """destroy_database in three observable steps (parked before the LOCK removal and before the
+    directory removal) interleaved with opens and closes, against LockPhases.pstep true"""
+    suite = "lockp"
+
+    def __init__(self, cases):
+        self.cases = cases
+        self.stats = {"opens_during_destroy": 0}
+
+    def execute(self, workdir, tag="lp"):
+        impl = lib.run_sharded(lib.RVH, "lock", self.cases, workdir, tag + "i", extra_env={"RVH_CASE_TIMEOUT": "200"})
+        model = lib.run_sharded(lib.DRIVER, "lockp", self.cases, workdir, tag + "m")
+        prop, corr = [], []
+        for c in self.cases:
+            cid = c.split(" ", 1)[0]
+            a = impl.get(cid, "").split(" ")[1:]
+            ml = model.get(cid, "")
+            b = ml.split(" | ")[0].split(" ")[1:]
+            steps = c.split(" ")[1:]
+            bad = None
+            if len(a) != len(steps) or len(b) != len(steps):
+                bad = "run failed: %s / %s" % (impl.get(cid, "")[:200], ml[:200])
+            else:
+                # the property itself, judged on the implementation's answers: never two handles open
+                openh = set()
+                phase = 0
+                for i, (st, x) in enumerate(zip(steps, a)):
+                    if st[0] == "O" and x == "ok":
+                        openh.add(st[1:])
+                        self.stats["opens_during_destroy"] += phase > 0
+                    elif st[0] == "X" and x == "ok":
+                        openh.discard(st[1:])
+                    elif st[0] in "EF" and x == "parked":
+                        phase = 1 if st[0] == "E" else 2
+                    elif st[0] in "EFH":
+                        phase = 0
+                    if len(openh) > 1:
+                        bad = "step %d %s: handles %s are open at the same time" % (i, st, sorted(openh))
+                        break
+                if not bad:
+                    for i, (st, x, y) in enumerate(zip(steps, a, b)):
+                        if x != y:
+                            bad = "step %d %s: implementation %s, model %s" % (i, st, x, y)
+                            break
+            if bad:
+                prop.append({"case": c, "impl": impl.get(cid, "")[:600], "spec": ml[:600], "model": "", "detail": bad})
+        return corr, prop
+
+
+def gen_phased(tier, rng):
+    import os
+    cases = []
+    d = os.path.join(lib.VERIF, "corpus", "C17")
+    if os.path.isdir(d):
+        for f in sorted(os.listdir(d)):
+            cases += [l.strip() for l in open(os.path.join(d, f)) if l.strip() and not l.startswith("#")]
+    cases += ["kp0 Oa Xa E Ob F Oc H Od Xc", "kp1 Oa E Xa E Ob F Xb H", "kp2 Oa Xa E F Ob Oc H Xb Oc"]
+    n = 30 if tier == "quick" else 1500
+    for i in range(n):
+        steps = []
+        names = ["a", "b", "c"]
+        for _ in range(rng.randrange(5, 16)):
+            r = rng.random()
+            if r < 0.35:
+                steps.append("O" + rng.choice(names))
+            elif r < 0.55:
+                steps.append("X" + rng.choice(names))
+            elif r < 0.7:
+                steps.append("E")
+            elif r < 0.85:
+                steps.append("F")
+            else:
+                steps.append("H")
+        cases.append("p%d %s" % (i, " ".join(steps)))
+    return cases
+
+
 def gen_cases(tier, rng):
     cases = []
     n = 40 if tier == "quick" else 1500
@@ -75,14 +155,19 @@ def gen_cases(tier, rng):
 
 
 def suites(tier, seed, rng):
-    return [LockSuite(["k0 Oa Pa:x61=x01 Ob D Ga:x61 Pa:x62=x02 Xa Oc Gc:x61 Gc:x62 Xc R4 Od Gd:x61 Q3"] + gen_cases(tier, rng))]
+    return [LockSuite(["k0 Oa Pa:x61=x01 Ob D Ga:x61 Pa:x62=x02 Xa Oc Gc:x61 Gc:x62 Xc R4 Od Gd:x61 Q3"] + gen_cases(tier, rng)),
+            LockPhasesSuite(gen_phased(tier, rng))]
 
 
 def replay_suites(rp):
+    if rp.get("suite") == "lockp":
+        return [LockPhasesSuite([rp["case"]])]
     return [LockSuite([rp["case"]])]
 
 
 def still_fails(suite, case, workdir):
+    if suite == "lockp":
+        return bool(LockPhasesSuite([case]).execute(workdir, tag="sh")[1])
     return bool(LockSuite([case]).execute(workdir, tag="sh")[1])
 
 
@@ -91,4 +176,6 @@ def nontrivial(suite, case):
 
 
 def classify(suite, case):
+    if suite == "lockp":
+        return "lockp:destroys=%d" % min(case.count(" E"), 3)
     return "lock:races=%d" % min(case.count(" R") + case.count(" Q"), 3)
